@@ -77,6 +77,7 @@ def run(ctx: Ctx):
     # unbounded part: the element parsers for well-formed elements with any number of list entries
     from props import parse_unbounded
     parse_unbounded.run(ctx)
+    parse_unbounded.run_documents(ctx)   # whole documents: any size, any nesting of namespaces
     jobs = list(D.documents().items())
     status, msg = parallel_jobs(ctx, jobs, lambda sub, j: check_doc(sub, j[0], j[1]), lambda j: j[0])
     if status == 'crash':
@@ -93,7 +94,7 @@ def make_replay(ctx, o):
 
 def native_search(ctx, o):
     import re
-    m = re.match(r'[^:]*:json_ast\.(parse_[a-z_]+)', o.id)
+    m = re.match(r'[^:]*:json_ast\.(parse_[a-z_]+|process)', o.id)
     if m:
         return {'script': 'native/replay_parse.py', 'input': {'function': m.group(1)}}
     return {'script': 'native/replay_parser.py', 'input': {'search': [
